@@ -23,6 +23,7 @@ func init() {
 	vRegister("vC33_relocator5", vC33_relocator5)
 	vRegister("vC33_share", vC33_share)
 	vRegister("vC33_batches", vC33_batches)
+	vRegister("vC33_finish", vC33_finish)
 }
 
 var vC33_addrs = [2]string{"h1:1", "h2:1"}
@@ -337,17 +338,22 @@ func vC33_roles(name string) []string {
 
 func vC33_share() {
 	vC33_calls, vC33_nLocalA, vC33_nLocalG, vC33_nReleased = 0, 0, 0, 0
-	shape := vCase("shape") // 10*actors + grains of the share, one job per shape
-	nA, nG := shape/10, shape%10
+	shape := vCase("shape") // 10*actors + grains of the share, one job per shape; +100 = three peers (target + two other survivors), no roles
+	wide := shape >= 100
+	nA, nG := (shape%100)/10, shape%10
 	nPeers := vChoose("peers", 2) + 1 // the target + at most one other survivor
 	leaderRoles := vC33_roles("leaderHasRole")
-	allPeers := []*cluster.Peer{{Host: "p1", RemotingPort: 9}, {Host: "p2", RemotingPort: 9}}
+	allPeers := []*cluster.Peer{{Host: "p1", RemotingPort: 9}, {Host: "p2", RemotingPort: 9}, {Host: "p3", RemotingPort: 9}}
 	allPeers[0].Roles = vC33_roles("targetHasRole")
 	allPeers[1].Roles = vC33_roles("otherHasRole")
+	needs := [2]bool{vNondetBool("actor1NeedsRole"), vNondetBool("actor2NeedsRole")}
+	if wide {
+		nPeers, leaderRoles, needs = 3, nil, [2]bool{false, false}
+		allPeers[0].Roles, allPeers[1].Roles = nil, nil
+	}
 	peers := allPeers[:nPeers]
 	roleA := "a"
 	actors := []*internalpb.Actor{{Address: "x1"}, {Address: "x2"}}
-	needs := [2]bool{vNondetBool("actor1NeedsRole"), vNondetBool("actor2NeedsRole")}
 	for i := 0; i < 2; i++ {
 		if needs[i] {
 			actors[i].Role = &roleA
@@ -462,6 +468,17 @@ func vC33_share() {
 			}
 		}
 	}
+	if wide {
+		failedCalls := 0
+		for c := 0; c < 12; c++ {
+			if c < vC33_calls && !vC33_log[c].ok && vC33_log[c].host != "p1" {
+				failedCalls++
+			}
+		}
+		if failedCalls >= 2*relocationBatchMaxAttempts && len(failed) >= 2 {
+			vCover("two-survivors-unreachable")
+		}
+	}
 	vCover("end")
 }
 
@@ -556,3 +573,95 @@ func vC33_batches() {
 	}
 	vCover("end")
 }
+
+// ------------------------------------------------------------------------------------------------------------------
+// (e) completion bookkeeping vs. duplicate notifications: real relocationWorker.finish / relocator.abortRelocation with a
+// cluster store; a duplicate node-left notification for the SAME departure may be handled at any point (also while the
+// store round trip of the bookkeeping is in progress) and must never start a second relocation of that departure
+
+type vC33Store struct {
+	cluster.Store
+	sys     *actorSystem
+	peers   map[string]*internalpb.PeerState
+	dupAt   int // where the duplicate notification is handled: 0 before, 1 at the start of DeletePeerState, 2 after it took effect, 3 afterwards
+	started int // relocations started by duplicate notifications
+	found   int // duplicate notifications that still found the departure's snapshot
+}
+
+func (s *vC33Store) GetPeerState(_ context.Context, addr string) (*internalpb.PeerState, bool) {
+	ps, ok := s.peers[addr]
+	if !ok {
+		return nil, false
+	}
+	return &internalpb.PeerState{Host: ps.Host, PeersPort: ps.PeersPort, Actors: ps.Actors}, true // the stores hand out clones
+}
+
+func (s *vC33Store) DeletePeerState(ctx context.Context, addr string) error {
+	if s.dupAt == 1 {
+		s.duplicate(addr)
+	}
+	delete(s.peers, addr)
+	if s.dupAt == 2 {
+		s.duplicate(addr)
+	}
+	return nil
+}
+
+// what handleNodeLeftEvent does on the leader once the notification arrived (transcribed): snapshot lookup, begin, dispatch
+func (s *vC33Store) duplicate(addr string) {
+	ps, ok := s.GetPeerState(context.Background(), addr)
+	if !ok {
+		return // no snapshot: not this departure's relocation set any more (crash-recovery derivation is outside this entry)
+	}
+	s.found++
+	if s.sys.beginRelocation(addr, ps) {
+		s.started++
+	}
+}
+
+func vC33_finish() {
+	sys := &actorSystem{relocationJobs: make(map[string]*internalpb.PeerState), logger: log.DiscardLogger}
+	store := &vC33Store{sys: sys, peers: map[string]*internalpb.PeerState{}}
+	sys.clusterStore = store
+	self := &PID{actorSystem: sys}
+	w := &relocationWorker{pid: self, logger: log.DiscardLogger}
+	r := &relocator{workers: make(map[string]workerJob), pid: self, logger: log.DiscardLogger}
+	rctx := &ReceiveContext{self: self, ctx: context.Background()}
+	addr := vC33_addrs[0]
+	snapshot := &internalpb.PeerState{Host: vC33_hosts[0], PeersPort: 1, Actors: map[string]*internalpb.Actor{"x1": {Address: "x1"}}}
+	store.peers[addr] = snapshot
+	store.dupAt = vChoose("duplicateAt", 4)
+	aborts := vNondetBool("relocationAborted") // the relocation ends through the relocator's abort path instead of the worker's finish
+
+	// the departure is notified: its relocation starts
+	job, _ := store.GetPeerState(context.Background(), addr)
+	vAssert(sys.beginRelocation(addr, job), "the first notification of a departure starts its relocation")
+	if store.dupAt == 0 {
+		store.duplicate(addr)
+		vCover("duplicate-while-relocating")
+	}
+	// the relocation ran; its completion bookkeeping
+	if aborts {
+		r.abortRelocation(rctx, addr, job, vC33_errPeer)
+		vCover("aborted")
+	} else {
+		w.finish(context.Background(), addr)
+		vCover("finished")
+	}
+	if store.dupAt == 3 {
+		store.duplicate(addr)
+		vCover("duplicate-afterwards")
+	}
+	vAssert(store.started == 0, "a duplicate notification of a departure never starts a second relocation of it, whenever it is handled")
+	_, still := sys.relocationJob(addr)
+	_, kept := store.peers[addr]
+	vAssert(!still && !kept, "after the bookkeeping the job is released and the departure's snapshot is gone")
+	if store.found > 0 {
+		vCover("duplicate-saw-snapshot")
+	}
+	if store.dupAt == 1 || store.dupAt == 2 {
+		vCover("duplicate-during-store-round-trip")
+	}
+	vCover("end")
+}
+
